@@ -46,7 +46,7 @@ ASSUMPTIONS = [
     "theorems are in exact real arithmetic; orientation of the (x east, y north) frame is C17_orientation; the solver's own orientation is the subject of C02/C06/C07",
     "'a few degrees' = 5 deg; 'resolved domain' = tower at the domain centre (via lat/lon and the reference), 2*max(dx,dy) <= footprint peak distance <= min(xmax,ymax)/20 (measured first, domain sized in units of it), modes = all modes of the padded grid, halo = 2*max(xmax,ymax) for every closure (measured worst error 0.75 deg) and additionally the solver's default halo for MOST/MOSTM (measured worst 2.7 deg); the CONSTANT closure with the default halo is NOT counted as resolved: its x^(-3/2) tail re-enters through the periodic images and moves the centroid by up to 5.7 deg on oblong domains, and a truncated spectrum (modes = grid size) low-pass filters anisotropically (up to 9 deg) - both are domain/resolution effects, not direction-convention effects",
     "correspondence tolerance 1e-12*max(1,|U|): deg2rad and sin/cos round to <= 2 ulp at |wind_dir| <= 720 deg",
-    "axis theorems: exact arithmetic under Laws O (field laws standing for IEEE doubles); footprint mode; v = 0 (u = 0) at every node - in binary64 compute_wind_fields(U, 90) has v = -U*6.1e-17, not 0; tower on a grid line for the centroid statements; returned array exact for an odd retained count or the full spectrum, otherwise without the unpaired retained frequency; every halo. Axis observable: tolerance 1e-9 of max|F| / of r*sum|F| (double; measured <= 3e-11 on the unchanged tree) and 1e-4 (single storage); direct solver requests in the bounded-growth regime (shooting growth exponent <= 3.5: cells enlarged until it holds), because on under-resolved grids (cells smaller than the measurement height) the shooting method amplifies the 1e-16 cross-wind component up to 1e-7; through run_bldfm_single on the resolved end-to-end configurations (measured <= 2.1e-11 on all 102 configurations of the thorough sweep, dominated by the tower being 1.5e-12 cells off its grid line after the lat/lon round trip)",
+    "axis theorems: exact arithmetic under Laws O (field laws standing for IEEE doubles); footprint mode; v = 0 (u = 0) at every node - in binary64 compute_wind_fields(U, 90) has v = -U*6.1e-17, not 0; tower on a grid line for the centroid statements; returned array exact for an odd retained count or the full spectrum, otherwise without the unpaired retained frequency; every halo. Axis observable: tolerance 1e-9 of max|F| / of r*sum|F| (double; measured <= 3e-11 on the unchanged tree) and 1e-4 (single storage); direct solver requests in the bounded-growth regime (shooting growth exponent <= 2.5: cells enlarged until it holds; measured worst over 2400 generated cases 2e-11, with 3.5 it was 4.6e-10), because on under-resolved grids (cells smaller than the measurement height) the shooting method amplifies the 1e-16 cross-wind component up to 1e-7; through run_bldfm_single on the resolved end-to-end configurations (measured <= 2.1e-11 on all 102 configurations of the thorough sweep, dominated by the tower being 1.5e-12 cells off its grid line after the lat/lon round trip)",
 ]
 
 UTILS = lambda: os.path.join(core.SRC, "bldfm", "utils.py")
